@@ -309,18 +309,51 @@ def SpecL (p : Option BinOp) (x0 : Operand) (done rest : Tail) (r : PRes) : Prop
     | _ :: _, none => False
   else ∃ o q, r = .chained o q
 
-theorem negation_render (x : Operand) (s : List Tok) : negation (x.toks ++ s) = .ok x.tree s := by
-  obtain ⟨pre, n⟩ := x
+/-- the next token is not a postfix form (so `access`'s loop stops there) -/
+def NoPost : List Tok → Prop
+  | .post _ :: _ => False
+  | _ => True
+
+theorem accessLoop_post (ps : List Post) (e : Tree) (s : List Tok) (hs : NoPost s) :
+    accessLoop e (ps.map Tok.post ++ s) = (ps.foldl (fun t p => .post p t) e, s) := by
+  induction ps generalizing e with
+  | nil =>
+    cases s with
+    | nil => simp [accessLoop]
+    | cons t s' => cases t <;> simp_all [accessLoop, NoPost]
+  | cons p ps ih => simp only [List.map, List.cons_append, accessLoop, List.foldl]; exact ih _
+
+theorem access_render (n : Nat) (ps : List Post) (s : List Tok) (hs : NoPost s) :
+    access (.atom n :: (ps.map Tok.post ++ s)) = .ok (accessTree n ps) s := by
+  simp only [access, accessLoop_post ps _ s hs, accessTree, accessTreeOn]
+
+theorem accessTreeOn_isPost (e : Tree) (p : Post) (ps : List Post) :
+    (accessTreeOn e (p :: ps)).isPost = true := by
+  induction ps generalizing e p with
+  | nil => simp [accessTreeOn, Tree.isPost]
+  | cons q ps ih => simpa [accessTreeOn] using ih (.post p e) q
+
+theorem negation_render (x : Operand) (s : List Tok) (hs : NoPost s) :
+    negation (x.toks ++ s) = .ok x.tree s := by
+  obtain ⟨pre, n, ps⟩ := x
   simp only [Operand.toks, Operand.tree]
   induction pre with
-  | nil => simp [negation]
+  | nil =>
+    simp only [List.map, List.nil_append, List.cons_append, List.foldr]
+    rw [negation.eq_def]
+    exact access_render n ps s hs
   | cons u pre ih =>
     simp only [List.append_assoc, List.cons_append, List.nil_append] at ih ⊢
     cases u <;> simp only [List.map, UnOp.tok, List.cons_append, negation, List.foldr, UnOp.apply] <;>
       rw [ih]
 
 theorem toks_length_pos (x : Operand) : 1 ≤ x.toks.length := by
-  simp [Operand.toks]
+  simp [Operand.toks]; omega
+
+theorem renderTail_noPost (a : Tail) : NoPost (renderTail a) := by
+  cases a with
+  | nil => simp [renderTail, NoPost]
+  | cons ox a => obtain ⟨o, x⟩ := ox; simp [renderTail, NoPost]
 
 theorem renderTail_append (a b : Tail) : renderTail (a ++ b) = renderTail a ++ renderTail b := by
   induction a with
@@ -356,9 +389,9 @@ theorem loop_not (f : Nat) (q o : BinOp) (lhs : Tree) (ts : List Tok) (h : docRe
     binopLoop R (f + 1) (some q) lhs (.op o :: ts) = .chained o q := by
   simp [binopLoop, peekBinop, R, h]
 
-theorem expr_succ (f : Nat) (p : Option BinOp) (x : Operand) (s : List Tok) :
+theorem expr_succ (f : Nat) (p : Option BinOp) (x : Operand) (s : List Tok) (hs : NoPost s) :
     binopExpr R (f + 1) p (x.toks ++ s) = binopLoop R f p x.tree s := by
-  simp [binopExpr, negation_render]
+  simp [binopExpr, negation_render x s hs]
 
 /-- the loop invariant: `done` is what has been folded into the left operand -/
 structure Inv (p : Option BinOp) (done rest : Tail) : Prop where
@@ -421,7 +454,7 @@ theorem pratt_main : ∀ fuel : Nat,
     obtain ⟨ihP, ihQ⟩ := ih
     constructor
     · intro p x0 rest h
-      rw [render_eq, expr_succ]
+      rw [render_eq, expr_succ _ _ _ _ (renderTail_noPost rest)]
       have hl : 2 * (renderTail rest).length + 1 ≤ f := by
         have := toks_length_pos x0
         simp only [render_eq, List.length_append] at h; omega
@@ -608,5 +641,10 @@ theorem parseExpr_R (x0 : Operand) (rest : Tail) :
     simp only [hf]
     refine ⟨fun t ht => by simp at ht, fun _ => ⟨o, q, ?_⟩⟩
     simp only [parseExpr, he]
+
+/-- one binary operator: the reference is the obvious tree -/
+theorem reference_single (x0 : Operand) (o : BinOp) (y : Operand) :
+    reference x0 [(o, y)] = some (.bin o x0.tree y.tree) := by
+  cases o <;> simp [reference, clashFree, clashAt, nextLE, refTree, splitLevel, level]
 
 end RotoV.Pratt
